@@ -380,6 +380,26 @@ def ident(name):
     return name + "_" if name in RUST_KEYWORDS else name
 
 
+# mirror of Model/C07Harvest.v lower_ranges / upper_ranges / caseless_ranges: the domain predicate (first_classified) admits a
+# type name only if its first code point is ASCII or lies in one of these ranges
+CLASSIFIED_RANGES = [(97, 122), (223, 246), (248, 255), (945, 969), (1072, 1103),
+                     (65, 90), (192, 214), (216, 222), (913, 929), (931, 937), (1040, 1071),
+                     (453, 453), (456, 456), (459, 459), (498, 498), (1488, 1514), (1569, 1610), (2308, 2361), (12353, 12438),
+                     (12449, 12538), (19968, 40959)]
+
+
+def first_classified(name):
+    cp = ord(name[0]) if name else -1
+    return 0 <= cp < 128 or any(a <= cp <= b for a, b in CLASSIFIED_RANGES)
+
+
+def lowered(name):
+    """the lower-case form of a type name (class C07-6) when it stays inside the domain predicate and is no Rust keyword
+    (struct box / struct ǆungla: unparsable file / first character outside the transcribed tables); else the name itself"""
+    low = name.lower()
+    return low if first_classified(low) and low not in RUST_KEYWORDS and low != name else name
+
+
 def bad_name(nm, taken):
     return (nm in taken or nm.endswith("Params") or nm.endswith("Schema") or len(nm) > 40 or (nm[0].isascii() and not nm[0].isupper())
             or nm in ("Option", "Result", "Vec", "HashMap", "BTreeMap", "HashSet", "BTreeSet", "String", "Hidden", "PlainData", "AppError",
@@ -581,7 +601,8 @@ def random_spec(rng, clean=True, acyclic=None, max_types=8, events=True):
         raw_items.append([rng.randrange(nfiles), "pub type HiddenList = Vec<Hidden>;\npub const HIDDEN_LIMIT: usize = 3;"])
     if not clean and rng.random() < 0.08:
         k = rng.randrange(n)
-        types[k]["name"] = types[k]["name"].lower()          # odd name: lower-case initial
+        if lowered(types[k]["name"]) not in [t["name"] for t in types]:
+            types[k]["name"] = lowered(types[k]["name"])     # odd name: lower-case initial
     if not clean and rng.random() < 0.12:
         cands = [i for i in range(n) if types[i]["kind"] in ("struct", "unit")]
         if cands:
